@@ -560,4 +560,16 @@ theorem localMarginAt_iff (δ full : ℚ) (m : Msg) (latRef lonRef : ℚ) : Loca
 instance (δ full : ℚ) (m : Msg) (latRef lonRef : ℚ) : Decidable (LocalMarginAt δ full m latRef lonRef) :=
   decidable_of_iff _ (localMarginAt_iff δ full m latRef lonRef).symm
 
+/-- read the other way: when the exact model returns a position `p`, the float-level computation returns one too,
+    within the tolerance -/
+theorem Close.of_some {tol : ℚ} {f : Option (ℚ × ℚ)} {g : Outcome (Option Pos)} (h : Close tol f g) {p : Pos}
+    (hg : g = .ok (some p)) : ∃ q, f = some q ∧ |q.1 - p.lat| ≤ tol ∧ |q.2 - p.lon| ≤ tol := by
+  obtain ⟨n, s⟩ := h
+  cases hf : f with
+  | none => rw [n.mp hf] at hg; cases hg
+  | some q =>
+    obtain ⟨p', hp', c⟩ := s q hf
+    rw [hg] at hp'; cases hp'
+    exact ⟨q, rfl, c⟩
+
 end Rs1090.Proofs.CprFloat
